@@ -105,7 +105,7 @@ Fixpoint unpack_all (fuel : nat) (defs : defmap) (operands : list umap) : option
   | [] => Some []
   | o :: r =>
     match unpack_map fuel defs o 1, unpack_all fuel defs r with
-    | Some u, Some us => Some (u :: us)
+    | Some u, Some us => Some (filter_zero u :: us)      (* cancelled units disappear before the operation *)
     | _, _ => None
     end
   end.
